@@ -87,6 +87,9 @@ func loadMutants(verif, prop string) []mutant {
 			continue
 		}
 		d := filepath.Dir(mj)
+		if meta.Expect == prop {
+			meta.Expect = "" // any rule reported by this property's check (shared rules keep their home id, e.g. C05.T2 under C03)
+		}
 		ms = append(ms, mutant{ID: "seeded/" + filepath.Base(d), Patch: filepath.Join("seeded", filepath.Base(d), "patch.diff"), Expect: meta.Expect, Note: meta.Needs})
 	}
 	return ms
